@@ -511,5 +511,9 @@ func main() {
 	}
 	// 5. model-only sanity lines (documented examples of the machine)
 	out.Case("model 2 fillStart dialOk dialFail fillStop fillStart connError dialOk fillStop fillStart close dialOk", "conns=0 pending=0 filling=true closed=true opened=0", "model", true)
+	out.Case("hsmodel code ctxFire cLeave cRet wRet wEsc rErr rEsc", "r=done w=done c=ret cancelled=1 buf=0", "model", true)
+	out.Case("hsmodel code wRet wSend cRet rEnd", "r=done w=done c=ret cancelled=1 buf=0", "model", true)
+	out.Case("hsmodel buf ctxFire cLeave cRet wRet wSend rErr", "r=send w=done c=ret cancelled=1 buf=1", "model", true)
+	out.Case("hsmodel buf ctxFire cLeave cRet wRet wSend rErr rSend", "stuck", "model", true)
 	out.Close(nil)
 }
